@@ -85,7 +85,7 @@ def make_inputs(ck, cases, cfg):
     pick = cases if len(cases) <= cfg["nbase"] else rng.sample(cases, cfg["nbase"])
     for st in pick:
         fmt, acc, text = flat(st["arg"]["fmt"]), flat(st["arg"]["acc"]), flat(st["arg"]["text"])
-        out.append((fmt, acc, text, "valid"))
+        out.append((fmt, acc, text, "valid" if st["exp"]["ret"] == "ok" else "strayend"))
         cur = text
         for k in range(cfg["nmut"]):
             if len(cur) > 200000:
@@ -98,6 +98,21 @@ def make_inputs(ck, cases, cfg):
                 a2 = rng.choice(ACCEPTS)
             out.append((f2, a2, cur2, "mut:" + kind))
             cur = cur2
+    # a section end (and start) character too many at the start, behind the first line, in the middle and at the
+    # end of balanced documents of every format family (judged by the monitor: success only if well nested)
+    bystyle = {}
+    for st in cases:
+        if st["exp"]["ret"] == "ok" and st["exp"]["tree"]:
+            bystyle.setdefault((c09.fmt_style(st["arg"]), json.dumps(st["arg"]["fmt"])), []).append(st)
+    for (sty, _), lst in sorted(bystyle.items()):
+        for st in (lst[0], lst[len(lst) // 2], lst[-1]):
+            fmt, acc, text = flat(st["arg"]["fmt"]), flat(st["arg"]["acc"]), flat(st["arg"]["text"])
+            se = fmt[2] if len(fmt) > 2 and fmt != [0] else 125
+            ss = fmt[0] if fmt != [0] else 123
+            nl = text.index(10) + 1 if 10 in text else len(text)
+            for pos in sorted(set([0, nl, len(text) // 2, len(text)])):
+                for ins in ([se], [10, se, 10], [se, se], [ss, se, se]):
+                    out.append((fmt, acc, text[:pos] + ins + text[pos:], "strayend"))
     for _ in range(cfg["nrand"]):
         fmt, acc = rng.choice(FORMATS), rng.choice(ACCEPTS)
         if rng.random() < 0.3:     # random format string from delimiter pool
@@ -217,6 +232,8 @@ def trim(o):
 
 def match_events(exp, obs, step=None, rec=None, prev=None):
     """a successful parse must have emitted exactly the expected events (kind, path, value)"""
+    if exp.get("ret") == "error":       # unmatched section end: a successful return cannot have been well nested
+        return None if obs.get("ret") == "error" else "accepted-unmatched-end: expected an error return, observed %s" % obs.get("ret")
     if obs.get("ret") != "ok":
         return None             # acceptance is C09's claim; a refusal is judged by the monitor (clean failure)
     got = [{"e": e["e"], "p": e["p"], "v": e["v"]} for e in obs.get("ev", [])]
@@ -274,18 +291,25 @@ def run(tier):
     # 2a. binding A: for the generated documents the specification knows the exact event sequence
     #     (section start / option / section end with element paths and values); a successful
     #     mpt_parse_config must have shown exactly that sequence to its handler
-    behsA = [[{"a": "events", "arg": st["arg"], "exp": {"ev": st["exp"]["ev"]}}] for st in cases]
+    #     documents with an unmatched section end (ConfText.StrayEnd) denote no forest: both calls must fail
+    behsA = []
+    for st in cases:
+        if st["exp"]["ret"] == "error":
+            behsA.append([{"a": "events", "arg": st["arg"], "exp": {"ret": "error"}}])
+            behsA.append([{"a": "parse", "arg": dict(st["arg"], pre=ck.rng.choice([0, 1, 3, 4])), "exp": {"ret": "error"}}])
+        else:
+            behsA.append([{"a": "events", "arg": st["arg"], "exp": {"ev": st["exp"]["ev"]}}])
     recsA, doneA = c09.run_guarded(exe, behsA, chunk=1000)
     behsA = behsA[:doneA]
     mmsA = vlib.compare(behsA, recsA, match_events)
     seen = {}
     for mm in mmsA:
-        st = behsA[mm["b"]][0]
-        sig = "events:%s:%s" % (mm["why"].split(":")[0].lower(), style(st["arg"]))
+        st = behsA[mm["b"]][mm["i"]]
+        sig = "%s:%s:%s" % (st["a"], mm["why"].split(":")[0].lower(), style(st["arg"]))
         seen[sig] = seen.get(sig, 0) + 1
         if seen[sig] <= 3:
-            ck.violation(sig, {"binding": "A(replay)", "behaviour": strip(behsA[mm["b"]]), "step": 0, "why": mm["why"],
-                               "record": mm["rec"], "text": c09.unruns(st["arg"]["text"])[:2000], "expected_events": st["exp"]["ev"]})
+            ck.violation(sig, {"binding": "A(replay)", "behaviour": strip(behsA[mm["b"]]), "step": mm["i"], "why": mm["why"],
+                               "record": mm["rec"], "text": c09.unruns(st["arg"]["text"])[:2000], "expected": st["exp"]})
     tm["replay"] = round(time.time() - t0, 1); t0 = time.time()
     ck.notes["replayed_event_sequences"] = len(behsA)
     ck.notes["replay_mismatches"] = len(mmsA)
